@@ -409,7 +409,7 @@ pub fn run(rep: &mut Report, tier: &str) {
     let seed = rep.seed;
     rep.rule = "a random master document (1-4 packages, package level elements of all kinds from the whole-specification corpus, runs of same-kind elements, nested packages) is split into 2-4 partial views at every splittable element (children with SHORT-NAME or DEFINITION-REF get random non-empty file subsets), same-kind identifiable sibling runs are shuffled per file; all k! load orders: union == master, order independence, every file serialized from the merged model == the file loaded on its own. Distinct by (file texts, load order); non-trivial = cases with at least one split point".into();
     rep.assumptions.push("files that list siblings of different kinds in different relative order, or that distribute non-identifiable siblings without DEFINITION-REF over files, are exercised separately: both are known findings".into());
-    let n = if thorough { 20_000 } else { 600 };
+    let n = if thorough { 40_000 } else { 4_000 };
     let shards = 32;
     let per = n / shards;
     run_shards(rep, shards, cpu_count(), 64, |shard, sub| {
